@@ -339,3 +339,109 @@ theorem convertKids_balanced (cfg : CCfg) (A : CAtoms) (anc : List String) :
 end
 
 end Distill
+
+namespace Distill
+
+/-! ## node ids (text and br) appended to the builder are in source order -/
+
+mutual
+/-- text nodes and `br` elements, in document order -/
+def Node.brTextIds : Node → List Nat
+  | .text i _ => [i]
+  | .other _ _ => []
+  | .elem i t _ ks => (if t == "br" then [i] else []) ++ brTextIdsL ks
+def brTextIdsL : List Node → List Nat
+  | [] => []
+  | k :: ks => k.brTextIds ++ brTextIdsL ks
+end
+
+theorem tagSwitch_nodeIds (A : CAtoms) (anc : List String) (hp : Bool)
+    (id : Nat) (tag : String) (attrs : List Attr) (kids : List Node) :
+    (∃ evs, tagSwitch A anc hp id tag attrs kids = .emit evs ∧
+        (nodeIds evs).Sublist ((if tag == "br" then [id] else []) ++ brTextIdsL kids)) ∨
+    (∃ mid t', tagSwitch A anc hp id tag attrs kids = .descend [mid] [.endNode] t' ∧
+        nodeIds [mid] = [] ∧ (tag == "br") = false) := by
+  unfold tagSwitch
+  split
+  · left; exact ⟨_, rfl, by simp [nodeIds]⟩
+  · split
+    · rename_i ti td hjs
+      left
+      refine ⟨_, rfl, ?_⟩
+      have hk : kids = [.text ti td] := by
+        unfold jsAnchorText at hjs
+        split at hjs
+        · split at hjs <;> simp_all
+        · simp at hjs
+      subst hk
+      simp only [nodeIds, textEv, brTextIdsL, Node.brTextIds, List.append_nil]
+      split <;> simp
+    · split
+      · left; exact ⟨_, rfl, by simp [nodeIds]⟩
+      · split
+        · rename_i hf
+          have ht : tag = "font" := by simpa using hf
+          right; exact ⟨_, _, rfl, by simp [nodeIds], by rw [ht]; decide⟩
+        · split
+          · rename_i hb
+            left; refine ⟨_, rfl, ?_⟩
+            simp only [nodeIds, hb, if_true]
+            simp
+          · rename_i hb
+            split
+            · left; exact ⟨_, rfl, by simp [nodeIds]⟩
+            · split
+              · left; exact ⟨_, rfl, by simp [nodeIds]⟩
+              · split
+                · left; exact ⟨_, rfl, by simp [nodeIds]⟩
+                · split
+                  · left; exact ⟨_, rfl, by simp [nodeIds]⟩
+                  · right; exact ⟨_, _, rfl, by simp [nodeIds], by simpa using hb⟩
+
+theorem nodeIds_tagPre (tag : String) (b : Bool) (l : List BEv) :
+    nodeIds ((if nestableTag tag then [BEv.addTag tag b] else []) ++ l) = nodeIds l := by
+  split <;> simp [nodeIds]
+
+theorem visitElem_nodeIds (cfg : CCfg) (A : CAtoms) (anc : List String) (hp : Bool)
+    (id : Nat) (tag : String) (attrs : List Attr) (kids : List Node) :
+    visitElem cfg A anc hp id tag attrs kids = .skip ∨
+    (∃ evs, visitElem cfg A anc hp id tag attrs kids = .emit evs ∧
+        (nodeIds evs).Sublist (Node.elem id tag attrs kids).brTextIds) ∨
+    (∃ pre post t', visitElem cfg A anc hp id tag attrs kids = .descend pre post t' ∧
+        nodeIds pre = [] ∧ nodeIds post = [] ∧ (tag == "br") = false) := by
+  unfold visitElem
+  split
+  · left; rfl
+  · split
+    · right; left; exact ⟨_, rfl, by simp [nodeIds]⟩
+    · rcases tagSwitch_nodeIds A anc hp id tag attrs kids with ⟨evs, h, h2⟩ | ⟨mid, t', h, h2, h3⟩
+      · rw [h]; simp only [withTags]
+        right; left; exact ⟨_, rfl, by rw [nodeIds_tagPre]; simpa [Node.brTextIds] using h2⟩
+      · rw [h]; simp only [withTags]
+        right; right
+        exact ⟨_, _, _, rfl, by rw [nodeIds_tagPre]; exact h2, by rw [nodeIds_tagPre]; simp [nodeIds], h3⟩
+
+mutual
+theorem convertNode_nodeIds_sublist (cfg : CCfg) (A : CAtoms) (anc : List String) (hp : Bool) :
+    (n : Node) → (nodeIds (convertNode cfg A anc hp n)).Sublist n.brTextIds
+  | .text i d => by
+    rw [convertNode_text]; simp only [nodeIds, textEv, Node.brTextIds]; split <;> simp
+  | .other _ _ => by rw [convertNode_other]; simp [nodeIds]
+  | .elem i t attrs ks => by
+    rw [convertNode_elem]
+    rcases visitElem_nodeIds cfg A anc hp i t attrs ks with h | ⟨evs, h, h2⟩ | ⟨pre, post, t', h, h1, h2, h3⟩
+    · rw [h]; exact List.nil_sublist _
+    · rw [h]; exact h2
+    · rw [h]; simp only [Node.brTextIds, h3]
+      rw [nodeIds_append, nodeIds_append, h1, h2]
+      simpa using convertKids_nodeIds_sublist cfg A (t' :: anc) ks
+theorem convertKids_nodeIds_sublist (cfg : CCfg) (A : CAtoms) (anc : List String) :
+    (ks : List Node) → (nodeIds (convertKids cfg A anc ks)).Sublist (brTextIdsL ks)
+  | [] => by simp [convertKids_nil, nodeIds, brTextIdsL]
+  | k :: ks => by
+    rw [convertKids_cons, nodeIds_append]
+    simp only [brTextIdsL]
+    exact List.Sublist.append (convertNode_nodeIds_sublist cfg A anc true k) (convertKids_nodeIds_sublist cfg A anc ks)
+end
+
+end Distill
